@@ -83,6 +83,12 @@ def gen_inherited(rnd, i):
         sub += fl + [""]
         alts.append({"cls": cname, "tag": (f"m{k}" if explicit else cname), "has_field": False, "aliased": False, "fields": fields, "aliases": {},
                      "extra_body": {}, "extra_ctor": ""})
+    if rnd.random() < 0.4:
+        # a subclass of an alternative (a grandchild of the discriminated class), with a field of its own: an alternative like the others
+        par = alts[0]; cname = f"P{i}_0g"
+        fields = par["fields"] + [("g", "str", "gg")]
+        sub += ["@dataclass", f"class {cname}({par['cls']}):", "    g: str = 'gg'", ""]
+        alts.append({"cls": cname, "tag": cname, "has_field": False, "aliased": False, "fields": fields, "aliases": {}, "extra_body": {}, "extra_ctor": ""})
     deco = f"@discriminator({key!r}" + (", {" + ", ".join(f"{a['tag']!r}: {a['cls']!r}" for a in alts) + "}" if explicit else "") + ")"
     lines = [deco, "@dataclass", f"class {pname}:", "    base: int = 0", ""] + sub
     return {"name": pname, "key": key, "alts": alts, "mode": "inherited" + ("-explicit" if explicit else ""), "src": lines}
